@@ -1962,6 +1962,13 @@ func runCtrl(job Job, res *JobResult) {
 				key, outcome = "panic:"+o.pan.fn, "ctrl-panic"
 			case o.openErr != nil || o.termErr != nil:
 				outcome = "ctrl-damage-reported-at-restart"
+			case o.head < 0 && commit >= 0:
+				// the damaged record is the first one of the only segment: recovery (commit offset not yet known to the
+				// WAL) discards the whole log, and an *empty* log is what checkWalCoversCommitOffset (d3de459) accepts on
+				// purpose (a WAL cleared by a snapshot install looks the same). Other root cause than a log that merely
+				// ends below the commit offset, hence its own key.
+				key = "controller:whole-log-discarded-silently:" + kind
+				outcome = "ctrl-whole-log-silently-dropped"
 			case o.head < commit:
 				key = "controller:committed-damage-discarded-silently:" + kind
 				outcome = "ctrl-committed-entries-silently-dropped"
@@ -2289,8 +2296,9 @@ func main() {
 		"damage = one byte or the whole 4-byte length field of one record / one index file; crash = durable image + subset of dirty 4 KiB pages or byte-prefix (in write order) of the non-durable records",
 		"nil commit-offset provider (offline tools) is evaluated with a relaxed oracle: errors are within contract, only panics, wrong contents and silent loss of entries of a cleanly written log count",
 		"records are 33 bytes (v2 small), 25 (v1 small) or about 3 KiB (large, page-straddling) with 1/2/3/7 records per segment; segment size = cap*record+3",
+		"mixed-size histories: two value sizes (6 and 46 bytes: 33/73-byte v2 records, 25/65-byte v1 records), every size vector in {S,L}^n, segments of 1/2/3 large records; entries appended after the reopen carry 25-byte values (52-byte v2 records) and go to v2 segments (a v1 log is continued in v2 segments, as in production); segment files of these images are intact (only the un-synced tail may be missing), only index files are missing/torn/damaged",
 	}
-	rc := run.Finish("every base history [k synced, m un-synced appends; k,m in 0..3; 1/2/3/7 records per segment; sync each/batch; codec v1/v2; small/large records] x {every subset of dirty pages, every byte-prefix of the non-durable records} x {index absent/empty/half/full, every index prefix} x {never-flushed segment file present/absent} x commit offset in {-1..lastSynced, nil}; and every clean image [n entries] x {every header byte x value set, length field x boundary set, every payload byte x 5 values, free-space garbage, every index byte x value set, every index truncation/extension/removal} x commit offset in {nil,-1..n-1}; distinct = distinct image byte contents per base history")
+	rc := run.Finish("every base history [k synced, m un-synced appends; k,m in 0..3; 1/2/3/7 records per segment; sync each/batch; codec v1/v2; small/large records] x {every subset of dirty pages, every byte-prefix of the non-durable records} x {index absent/empty/half/full, every index prefix} x {never-flushed segment file present/absent} x commit offset in {-1..lastSynced, nil}; and every clean image [n entries] x {every header byte x value set, length field x boundary set, every payload byte x 5 values, free-space garbage, every index byte x value set, every index truncation/extension/removal} x commit offset in {nil,-1..n-1}; and every mixed-size history [n = k synced + m un-synced entries, every size vector in {S,L}^n, 1/2/3 large records per segment, codec v1/v2] x directory state {crash with everything persisted, crash with only msynced bytes, clean close} x {each index file in turn absent/empty/3 bytes/half/last byte cut/first, middle, last byte flipped/zeroed/extended by 4 bytes; every combination of intact/absent/middle byte flipped over all index files (<= 4 files; more: all the same)} -> reopen, read every entry through its own reader + one forward + one reverse reader, append across >= 1 rollover, read everything again, close, reopen, read everything again; distinct = distinct image byte contents per base history")
 	if infraErr {
 		os.Exit(2)
 	}
